@@ -13,6 +13,14 @@ class Stop(Exception):
     pass
 
 
+class _Break(Exception):
+    pass
+
+
+class _Continue(Exception):
+    pass
+
+
 class Interp(object):
     def __init__(self, env, consts=None, methods=None):
         self.env = dict(env)
@@ -25,6 +33,7 @@ class Interp(object):
         self.calls = []
         self.record = set()
         self.built = []
+        self.retval = None
 
     def ev(self, e):
         if isinstance(e, ast.Constant):
@@ -71,16 +80,103 @@ class Interp(object):
                 k = "has:" + (pyfront.dotted(elt.func.value) or "?")
                 if k in self.env:
                     return self.env[k]
+        if isinstance(e, ast.IfExp):
+            return self.ev(e.body) if self.truth(self.ev(e.test)) else self.ev(e.orelse)
+        if isinstance(e, ast.Call):
+            d = pyfront.call_name(e) or ""
+            if d in self.record:
+                return self._build("<expr>", d, e)
+            if d.startswith("self.") and d[5:] in self.methods and self.depth < 4:
+                return self._call_method(self.methods[d[5:]], e)
+            if d in ("bool", "int", "str") and len(e.args) == 1:
+                v = self.ev(e.args[0])
+                if not (isinstance(v, tuple) and v and v[0] in ("sym", "obj")):
+                    return {"bool": bool, "int": int, "str": str}[d](v)
+            for a in list(e.args) + [k.value for k in e.keywords]:
+                self._scan_calls(a)
+            return ("sym", ast.unparse(e))
         if isinstance(e, ast.List) and not e.elts:
             return []
-        if isinstance(e, (ast.Tuple, ast.List)) and all(isinstance(x, ast.Constant) for x in e.elts):
-            return [x.value for x in e.elts]
+        if isinstance(e, (ast.Tuple, ast.List)):
+            out = []
+            for x in e.elts:
+                try:
+                    out.append(self.ev(x))
+                except AnalysisError:
+                    out.append(("sym", ast.unparse(x)))
+            return out
         if isinstance(e, ast.Attribute):
             d = pyfront.dotted(e)
             if d in self.env:
                 return self.env[d]
             return ("sym", d)
         raise AnalysisError("decision table: cannot evaluate `%s`" % ast.unparse(e))
+
+    def _build(self, name, d, call):
+        kw = {}
+        for k in call.keywords:
+            try:
+                v = self.ev(k.value)
+            except AnalysisError:
+                v = ("sym", ast.unparse(k.value))
+            if k.arg is None:
+                if isinstance(v, dict):
+                    kw.update(v)            # **kwargs collected by a helper
+                continue
+            kw[k.arg] = v
+        self.built.append((name, d, kw, call))
+        return ("obj", "%s#%d" % (d, len(self.built)))
+
+    def _call_method(self, f, call):
+        """abstract execution of a same-class helper method with its parameters bound; returns its return value"""
+        saved = dict(self.env)
+        params = [a.arg for a in f.args.args if a.arg != "self"]
+        defaults = f.args.defaults
+        bound = {}
+        for p_, d_ in zip(params[len(params) - len(defaults):], defaults):
+            try:
+                bound[p_] = self.ev(d_)
+            except AnalysisError:
+                bound[p_] = ("sym", ast.unparse(d_))
+        for p_, a_ in zip(params, call.args):
+            try:
+                bound[p_] = self.ev(a_)
+            except AnalysisError:
+                bound[p_] = ("sym", ast.unparse(a_))
+        extra = {}
+        for k in call.keywords:
+            if k.arg:
+                try:
+                    v = self.ev(k.value)
+                except AnalysisError:
+                    v = ("sym", ast.unparse(k.value))
+                if k.arg in params:
+                    bound[k.arg] = v
+                else:
+                    extra[k.arg] = v
+        if f.args.kwarg is not None:
+            bound[f.args.kwarg.arg] = extra
+        self.env.update(bound)
+        self.depth += 1
+        ret_before, val_before = self.returned, self.retval
+        self.retval = None
+        try:
+            body = [x for x in f.body if not (isinstance(x, ast.Expr) and isinstance(x.value, ast.Constant))]
+            try:
+                self._block(body, None)
+            except Stop:
+                pass
+            out = self.retval
+        finally:
+            self.depth -= 1
+            self.returned, self.retval = ret_before, val_before
+            for k in list(self.env):
+                if not k.startswith("self.") and k not in saved:
+                    del self.env[k]
+            for k, v in saved.items():
+                if not k.startswith("self."):
+                    self.env[k] = v
+        return out
 
     def truth(self, v):
         if isinstance(v, tuple) and v and v[0] == "sym":
@@ -155,6 +251,7 @@ class Interp(object):
                 try:
                     self.env[s.targets[0].id] = self.ev(s.value)
                 except AnalysisError:
+                    self._scan_calls(s.value)
                     self.env[s.targets[0].id] = ("sym", ast.unparse(s.value))
             elif isinstance(s, ast.Assign) and len(s.targets) == 1 and isinstance(s.targets[0], ast.Attribute):
                 try:
@@ -168,9 +265,48 @@ class Interp(object):
                     self._block(s.orelse, stop_at)
             elif isinstance(s, ast.Return):
                 if s.value is not None:
-                    self._scan_calls(s.value)
+                    try:
+                        self.retval = self.ev(s.value)
+                    except AnalysisError:
+                        self._scan_calls(s.value)
+                        self.retval = ("sym", ast.unparse(s.value))
                 self.returned = True
                 raise Stop()
+            elif isinstance(s, ast.Assign) and len(s.targets) == 1 and isinstance(s.targets[0], (ast.Tuple, ast.List)):
+                try:
+                    v = self.ev(s.value)
+                except AnalysisError:
+                    v = None
+                tg = s.targets[0].elts
+                for i, t in enumerate(tg):
+                    key = t.id if isinstance(t, ast.Name) else pyfront.dotted(t)
+                    if key is None:
+                        continue
+                    self.env[key] = v[i] if isinstance(v, list) and len(v) == len(tg) else ("sym", ast.unparse(s.value))
+            elif isinstance(s, ast.For):
+                try:
+                    items = self.ev(s.iter)
+                except AnalysisError:
+                    items = None
+                if not isinstance(items, list):
+                    raise Stop()
+                broke = False
+                for it_ in items:
+                    if isinstance(s.target, ast.Name):
+                        self.env[s.target.id] = it_
+                    try:
+                        self._block(s.body, stop_at)
+                    except _Break:
+                        broke = True
+                        break
+                    except _Continue:
+                        continue
+                if not broke:
+                    self._block(s.orelse, stop_at)
+            elif isinstance(s, ast.Break):
+                raise _Break()
+            elif isinstance(s, ast.Continue):
+                raise _Continue()
             elif isinstance(s, ast.Raise):
                 self.raised = True
                 raise Stop()
@@ -178,6 +314,11 @@ class Interp(object):
                 c = s.value
                 if isinstance(c.func, ast.Attribute) and c.func.attr == "append" and isinstance(c.func.value, ast.Name):
                     v = c.args[0]
+                    if isinstance(v, ast.Call):
+                        try:
+                            self.ev(v)
+                        except AnalysisError:
+                            pass
                     name = pyfront.dotted(v) or ast.unparse(v)
                     self.appends.setdefault(c.func.value.id, []).append(name)
                     if isinstance(self.env.get(c.func.value.id), list):
